@@ -162,7 +162,8 @@ class Case:
         return {"v": to_json(self.v), "x": to_json(self.x), "mode": self.mode,
                 "classes": [{**d, "fields": [[f[0], None, to_json(f[2]) if f[2] is not None else None, f[3]]
                                              for f in d.get("fields", [])]} for d in self.classes],
-                "lazy": to_json(self.lazy), "fuel": self.fuel, "tag": self.tag}
+                "lazy": to_json(self.lazy), "fuel": self.fuel, "tag": self.tag,
+                "extra": {k: to_json(v) for k, v in getattr(self, "extra", {}).items()}}
 
 
 def observe(case: Case, rng=None) -> None:
